@@ -4,6 +4,7 @@ import Guard.Spec.Spec
 import Guard.Model.Cli
 import Guard.Model.Report
 import Guard.Model.Merge
+import Guard.Model.TestReport
 import Lean.Data.Json
 /-
   guard_model — line-protocol driver for the executable model.
@@ -426,6 +427,17 @@ def handle (j : Json) : Json :=
       | .outOfFuel => Json.mkObj [("id", id), ("outOfFuel", true)]
     | .err e => Json.mkObj [("id", id), ("merge_err", Json.str e.toStr)]
     | _ => Json.mkObj [("id", id), ("merge_err", "panic")]
+  | "test_classify" =>
+    let pairs (j : Json) : List (Str × Status) := (jarr j).filterMap fun row => match jarr row with
+      | [n, s] => some (jstrL n, parseStatus (jstr s))
+      | _ => none
+    let groups := groupByName (pairs (jfield j "statuses"))
+    let outs := classify (pairs (jfield j "expectations")) groups
+    let stJ (s : Status) : Json := Json.str s.toStr
+    Json.mkObj [("id", id), ("outcomes", Json.arr (outs.map fun o => match o with
+      | .passed n s => Json.mkObj [("k", "passed"), ("name", sOf n), ("evaluated", stJ s)]
+      | .failed n e ev => Json.mkObj [("k", "failed"), ("name", sOf n), ("expected", stJ e), ("evaluated", Json.arr (ev.map stJ).toArray)]
+      | .noExpectation n => Json.mkObj [("k", "skipped"), ("name", sOf n)]).toArray)]
   | "consistent" =>
     let t := parseRec (jfield j "tree")
     let ok := Consistent t
